@@ -146,6 +146,9 @@ type Conn struct {
 	jobList []func()
 
 	readEvents int32
+	// set by the poller when the peer has hung up: the async read task
+	// then reads to the end and closes the connection itself.
+	hungup int32
 
 	dataHandler func(c *Conn, data []byte)
 
@@ -169,7 +172,10 @@ func (c *Conn) AsyncRead() {
 	// be re-dispatched before this reading event has been handled and set again.
 	if g.isOneshot {
 		g.IOExecute(func(pbuf *[]byte) {
-			for i := 0; i < g.MaxConnReadTimesPerEventLoop; i++ {
+			// looked at before the reads: what the peer sent before it
+			// hung up is in the socket by then.
+			hungup := atomic.LoadInt32(&c.hungup) != 0
+			for i := 0; i < g.MaxConnReadTimesPerEventLoop || hungup; i++ {
 				// the last round may have left the buffer cut to its count.
 				*pbuf = (*pbuf)[:cap(*pbuf)]
 				rc, n, err := c.ReadAndGetConn(pbuf)
@@ -191,6 +197,11 @@ func (c *Conn) AsyncRead() {
 					break
 				}
 			}
+			if hungup {
+				// everything the peer sent before it hung up has been delivered.
+				_ = c.closeWithError(io.EOF)
+				return
+			}
 			c.ResetPollerEvent()
 		})
 		return
@@ -211,7 +222,10 @@ func (c *Conn) AsyncRead() {
 	g.IOExecute(func(pBuf *[]byte) {
 		for {
 			// try to read all the data available.
-			for i := 0; i < g.MaxConnReadTimesPerEventLoop; i++ {
+			// looked at before the reads: what the peer sent before it
+			// hung up is in the socket by then.
+			hungup := atomic.LoadInt32(&c.hungup) != 0
+			for i := 0; i < g.MaxConnReadTimesPerEventLoop || hungup; i++ {
 				// the last round may have left the buffer cut to its count.
 				*pBuf = (*pBuf)[:cap(*pBuf)]
 				rc, n, err := c.ReadAndGetConn(pBuf)
@@ -232,6 +246,11 @@ func (c *Conn) AsyncRead() {
 				if n < len(*pBuf) && (c.typ == ConnTypeTCP || c.typ == ConnTypeUnix) {
 					break
 				}
+			}
+			if hungup {
+				// everything the peer sent before it hung up has been delivered.
+				_ = c.closeWithError(io.EOF)
+				return
 			}
 			if atomic.AddInt32(&c.readEvents, -1) == 0 {
 				return
